@@ -282,7 +282,7 @@ fn main() {
     });
     sink.merge(s2);
 
-    for style in [1u8, 3, 4, 6, 7, 8, 10, 11, 12, 13, 14, 15, 16, 17, 18, 19] {
+    for style in [1u8, 3, 4, 6, 7, 8, 10, 11, 12, 13, 14, 15, 16, 17, 18, 19, 20, 21] {
         let k = vcommon::en::with_fill_style(style, cat::known_extensions);
         let sx = par_run(run.threads, k.len(), |i, sink| check_single(&k[i].buf, sink));
         sink.merge(sx);
